@@ -7,6 +7,8 @@ import (
 	"sync/atomic"
 	"encoding/json"
 	"fmt"
+	"os"
+	"sort"
 	"strings"
 	"syscall"
 	"testing"
@@ -17,12 +19,17 @@ import (
 	"servitor/pub"
 	"servitor/zverif/vgen"
 	"servitor/zverif/vrep"
+	"servitor/zverif/vsim"
 )
 
 type Case struct {
 	Doc    string `json:"doc"` // JSON text as a server would send it
 	Widths []int  `json:"widths"`
 	Nums   []int  `json:"nums"`
+	// Served (unit Served): the document and those of its parts that carry an id are served by the simulator under
+	// these paths (%P% is the per-case prefix) and the item is fetched by its address - as every real item is
+	Served map[string]string `json:"served,omitempty"`
+	Top    string            `json:"top,omitempty"`
 	// bookkeeping from the generator (for classes and the open finding's signature)
 	Corruptions int `json:"corruptions"`
 	Depth       int `json:"depth,omitempty"`
@@ -58,7 +65,7 @@ func deepNestingCost(c Case) bool { return c.Blocks >= 25 }
 // lapStart: process CPU time at which the call that is running now was started (read by the watchdog in check)
 var lapStart int64
 
-func exercise(c Case, obj map[string]any) (classes []string, err error) {
+func exercise(c Case, obj any) (classes []string, err error) {
 	last := cpuTime()
 	atomic.StoreInt64(&lapStart, int64(last))
 	lap := func(what string) error {
@@ -198,7 +205,11 @@ func check(c Case) vrep.Result {
 				done <- outcome{nil, fmt.Errorf("panic: %v", p)}
 			}
 		}()
-		cl, err := exercise(c, obj)
+		var input any = obj
+		if c.Top != "" {
+			input = servedInput(c)
+		}
+		cl, err := exercise(c, input)
 		done <- outcome{cl, err}
 	}()
 	hung := time.After(totalLimit)
@@ -300,6 +311,76 @@ func genDeep(t *rapid.T) Case {
 	return c
 }
 
+var sim *vsim.Sim
+
+func TestMain(m *testing.M) {
+	vsim.Init()
+	sim = vsim.New(1)
+	os.Exit(m.Run())
+}
+
+// servedInput installs the case's documents and returns the address of the top one.
+func servedInput(c Case) string {
+	prefix := sim.NewPrefix()
+	sim.ClearRoutes()
+	for path, doc := range c.Served {
+		sim.Set(0, prefix+path, vsim.JSON(strings.ReplaceAll(doc, "%P%", prefix)))
+	}
+	return sim.URL(0, prefix+c.Top)
+}
+
+// assignIDs gives the document and some of its parts an id on the simulator's host and registers what is served
+// under each: a part with an id is a document of its own (whoever meets it embedded may fetch it again), a part
+// without one only exists inside its parent.
+func assignIDs(t *rapid.T, v any, served map[string]string, n *int, top bool) {
+	switch x := v.(type) {
+	case map[string]any:
+		keys := make([]string, 0, len(x))
+		for k := range x {
+			keys = append(keys, k)
+		}
+		sort.Strings(keys)
+		for _, k := range keys {
+			assignIDs(t, x[k], served, n, false)
+		}
+		if _, typed := x["type"].(string); typed && (top || rapid.IntRange(0, 9).Draw(t, "hasid") < 6) {
+			*n++
+			path := fmt.Sprintf("/o%d", *n)
+			x["id"] = "https://%H0%%P%" + path
+			served[path] = marshal(x)
+		}
+	case []any:
+		for _, el := range x {
+			assignIDs(t, el, served, n, false)
+		}
+	}
+}
+
+// genServed: the AS-shaped documents of gen, fetched from a server.
+func genServed(t *rapid.T) Case {
+	c := Case{Served: map[string]string{}}
+	src := vgen.StrSrc(vgen.BenignString)
+	if rapid.Bool().Draw(t, "hostile") {
+		src = vgen.HostileString
+	}
+	obj := vgen.GenASObject(t, src, rapid.IntRange(0, 3).Draw(t, "asdepth"))
+	if rapid.IntRange(0, 3).Draw(t, "corrupt") == 0 {
+		var v any
+		v, c.Corruptions = vgen.Corrupt(t, obj, rapid.SampledFrom([]int{3, 10}).Draw(t, "p"))
+		obj = v.(map[string]any)
+	}
+	if _, typed := obj["type"].(string); !typed {
+		obj["type"] = "Note"
+	}
+	n := 0
+	assignIDs(t, obj, c.Served, &n, true)
+	c.Top = fmt.Sprintf("/o%d", n)
+	c.Doc = marshal(obj)
+	genCommon(t, &c)
+	return c
+}
+
+func TestServed(t *testing.T) { vrep.Run(t, "Served", true, genServed, check) }
 func TestProp(t *testing.T)   { vrep.Run(t, "Prop", true, gen, check) }
 func TestDeep(t *testing.T)   { vrep.Run(t, "Deep", true, genDeep, check) }
 func TestReplay(t *testing.T) { vrep.Replay(t, vrep.ReplayCheckName(), check) }
